@@ -99,6 +99,9 @@ pub struct World {
     pub latch_log: Vec<(bool, u16)>,
     /// one-shot: the next write to this data pin fails (C07 b)
     pub fail_data_pin: Option<u8>,
+    /// "late" faults: a failing pin write still changes the level (e.g. a port expander whose
+    /// write went through while the acknowledge was lost); default: a failed write leaves the level
+    pub late_faults: bool,
 }
 
 pub type W = Rc<RefCell<World>>;
@@ -134,6 +137,7 @@ impl World {
             latch_on: false,
             latch_log: Vec::new(),
             fail_data_pin: None,
+            late_faults: false,
         }))
     }
 
@@ -212,6 +216,22 @@ impl World {
         }
     }
 
+    /// Forget the observations of an earlier phase (e.g. a failed init) before judging the next one.
+    pub fn begin_epoch(&mut self) {
+        self.finish_cmd();
+        self.rst_log.clear();
+        self.first_bus = None;
+        self.bus_while_reset = 0;
+        self.decode_errors.clear();
+        self.latch_log.clear();
+        self.panel.take_trace();
+        self.panel.take_errors();
+        self.panel.take_bursts();
+        self.panel.swreset_count = 0;
+        self.fail_at.clear();
+        self.in_ramwr = false;
+    }
+
     /// Bring the Panel up to date at the end of a driver call.
     pub fn flush(&mut self) {
         self.finish_cmd();
@@ -235,7 +255,18 @@ impl World {
                 ok: r.is_ok(),
             });
         }
-        r?;
+        if r.is_err() {
+            if self.late_faults && !matches!(r, Err(Fault { budget: true, .. })) {
+                // the level changes although the call reports failure; no edge semantics (WR/RST) are
+                // attached to a failed write: only plain level pins are affected
+                match src {
+                    Src::Dc => self.dc = Some(level),
+                    Src::Data(i) => self.data[i as usize] = Some(level),
+                    _ => {}
+                }
+            }
+            return r;
+        }
         match src {
             Src::Dc => self.dc = Some(level),
             Src::Rst => {
